@@ -37,6 +37,12 @@ func (h *histGen) newID() string {
 // runBase creates a fresh program.
 func (h *histGen) runBase(must bool) world.Step {
 	o := gen.SpecOpts{MaxOps: 1 + h.r.Intn(4), Chunk: h.chunk, Tag: h.tag(), NoWeak: true, NoObserver: true, NoPragmas: true, Small: h.r.Chance(0.5), KeyTypes: []string{"int", "string", "int64", "uint8"}}
+	if h.r.Chance(0.2) {
+		// A result with a two-column key prefix.
+		o.KeyTypes = []string{"int", "string"}
+		o.ForceOps = []string{"widen", "prefixed"}
+		o.MaxOps = 2
+	}
 	sp := gen.Spec(h.r, o)
 	id := h.newID()
 	ts, _ := sp.Types()
@@ -76,6 +82,10 @@ func (h *histGen) runOver(must bool) (world.Step, bool) {
 	o := gen.SpecOpts{MaxOps: 1 + h.r.Intn(3), Chunk: h.chunk, Tag: h.tag(), NoWeak: true, NoObserver: true, NoPragmas: true, ArgTypes: argTypes}
 	t := h.types[a]
 	switch {
+	case t.IsKKV() && t.Prefix == 2 && h.r.Chance(0.7):
+		// Re-prefix the result and aggregate on the shorter key.
+		o.ForceOps = []string{"prefixed", h.r.PickS("fold", "fold", "reshuffle")}
+		o.MaxOps = 2
 	case !t.IsKV():
 	case h.r.Chance(0.5):
 		// Redistribute the result directly.
@@ -148,7 +158,7 @@ func GenC12(seed uint64, i int) *world.Case {
 			}
 		case x < 13:
 			c.Script = append(c.Script, h.runBase(true))
-		case x < 16:
+		case x < 15:
 			id := h.pick()
 			c.Script = append(c.Script, world.Step{Op: "discard", Of: id})
 			// Discarding a result discards the whole subgraph it was computed from.
@@ -156,7 +166,7 @@ func GenC12(seed uint64, i int) *world.Case {
 			for _, other := range h.live {
 				disturbed[other] = true
 			}
-		case x < 18:
+		case x < 19:
 			// discard || run-with-result
 			id := h.pick()
 			if st, ok := h.runOver(false); ok {
@@ -178,6 +188,12 @@ func GenC12(seed uint64, i int) *world.Case {
 			}
 		}
 	}
+	// Widen the window between a discard's bookkeeping and its RPC: delay some Worker.Discard calls.
+	if h.cluster && r.Chance(0.6) {
+		for k := 0; k < 1+r.Intn(3); k++ {
+			c.Faults = append(c.Faults, &simnet.Fault{At: simnet.Match{Point: "send", Method: "Worker.Discard", Occ: 1 + r.Intn(6)}, Do: "delay", Arg: int64(time.Duration(r.Pick(1, 3, 10, 40)) * time.Second)})
+		}
+	}
 	// Finally every result that a Func recomputed... just scan the last one.
 	last := h.live[len(h.live)-1]
 	c.Script = append(c.Script, world.Step{Op: "scan", Of: last})
@@ -189,7 +205,7 @@ func GenC12(seed uint64, i int) *world.Case {
 func C12(tier string, seed uint64) int {
 	b := &Batch{
 		Property: "C12", Tier: tier, Seed: seed, Level: "exploration",
-		Rule: "seeded client histories (3-10 steps) over one session on the local or simulated-cluster executor: run(program), scan, scan||scan, run(program over 1-2 earlier Results through pipelined or redistributing operators), discard, discard||run-with-result, kill(machine); model: every Result has the rows of the reference evaluation of its program (over the model rows of its arguments); oracle: every successful scan equals the model, rows delivered before a scan error are genuine, Funcs run after discards/kills succeed, scans of undisturbed results succeed, every step returns within 6h simulated; distinct = distinct (ordered seam-event sequence, per-step result digests)",
+		Rule: "seeded client histories (3-10 steps) over one session on the local or simulated-cluster executor: run(program), scan, scan||scan, run(program over 1-2 earlier Results through pipelined or redistributing operators), discard, discard||run-with-result, kill(machine); model: every Result has the rows of the reference evaluation of its program (over the model rows of its arguments); oracle: every successful scan equals the model, rows delivered before a scan error are genuine, Funcs run after discards/kills succeed, scans of undisturbed results succeed, every step returns within 4h simulated; distinct = distinct (ordered seam-event sequence, per-step result digests)",
 		Gen: func(i int) *world.Case { return GenC12(seed, i) },
 		N:   1200,
 	}
@@ -261,7 +277,7 @@ func GenC19(seed uint64, i int) *world.Case {
 func C19(tier string, seed uint64) int {
 	b := &Batch{
 		Property: "C19", Tier: tier, Seed: seed, Level: "exploration",
-		Rule: "1-2 shared base results, then 2-5 concurrent client goroutines in one session (runs over the shared results through pipelined and redistributing operators, fresh runs, scans of shared results, optionally one client discarding a shared result), both executors, seeded virtual delays at RPC seams, in user functions and at the simhook yield points; oracle: every successful scan equals the reference of its program as if run alone, all steps succeed when nobody discards, no task has two Executor.Run calls in flight at once (yield-hook monitor), every client returns within 6h simulated; thorough tier re-runs a sample under the race detector (any race report with frames in /repo is a violation); distinct = distinct (ordered seam-event sequence, per-step digests)",
+		Rule: "1-2 shared base results, then 2-5 concurrent client goroutines in one session (runs over the shared results through pipelined and redistributing operators, fresh runs, scans of shared results, optionally one client discarding a shared result), both executors, seeded virtual delays at RPC seams, in user functions and at the simhook yield points; oracle: every successful scan equals the reference of its program as if run alone, all steps succeed when nobody discards, no task has two Executor.Run calls in flight at once (yield-hook monitor), every client returns within 4h simulated; thorough tier re-runs a sample under the race detector (any race report with frames in /repo is a violation); distinct = distinct (ordered seam-event sequence, per-step digests)",
 		Gen: func(i int) *world.Case { return GenC19(seed, i) },
 		N:   1000,
 		Judge: func(c *world.Case, o *world.Outcome) string {
